@@ -21,9 +21,11 @@ Definition fs_of (r : read_result) (res : path) : fs := mkFs r (Some res) true t
    second with malformed content; every change followed by the event inotify
    delivers for it; the kernel drops the watch on the replaced inode *)
 Definition ex_trace : list item :=
-  [ Fs (fs_of (Content 1) p_other); KernelDrop p_cfg; In (IEvent p_tmp); In (IEvent p_cfg);
-    Fs (fs_of (Content 2) p_cfg); In (IEvent p_tmp); In (IEvent p_cfg);
-    In ITick;
+  [ In IRecheck;                                                 (* the initial token: nothing changed *)
+    Fs (fs_of (Content 1) p_other); KernelDrop p_cfg; In (IEvent p_tmp); In (IEvent p_cfg);
+    In IRecheck;                                                 (* token left by the new directory watch *)
+    Fs (fs_of (Content 2) p_cfg); In (IEvent p_tmp); InRead (IEvent p_cfg); Cont;
+    In IRecheck; In ITick;
     Fs (fs_of (Content 2) p_cfg); In (IEvent p_cfg);           (* identical content, new inode *)
     Fs (fs_of (Content 100) p_cfg); In (IEvent p_cfg);         (* malformed *)
     Fs (fs_of NotExist p_cfg); In (IEvent p_cfg);              (* deleted *)
@@ -74,6 +76,67 @@ Example f12_fixed :
   winv p_cfg (ex_run update_dir_watches f12_trace) = true /\
   mem (dir p_cfg) (st_watches (ex_run update_dir_watches f12_trace)) = true /\
   mem (dir p_other) (st_watches (ex_run update_dir_watches f12_trace)) = true.
+Proof. vm_compute. repeat split; reflexivity. Qed.
+
+(* The read-before-watch window (second repair).  The config path is switched
+   to a file in another directory; the loop reads it (InRead) and, before the
+   rest of the pass has added the watch on the new directory (Cont), the new
+   target is rewritten in place: no watch covers it at that moment, so no event
+   will ever be delivered for that write.  Without the recheck token (= the
+   pinned code, or this trace as it stands) the view stays stale; the repaired
+   loop has left itself a token, receives it, and converges. *)
+Definition window_trace : list item :=
+  [ In IRecheck;
+    Fs (fs_of (Content 1) p_other); KernelDrop p_cfg;
+    InRead (IEvent p_cfg);                      (* reads content 1 *)
+    Fs (fs_of (Content 6) p_other);             (* in-place rewrite, directory not yet watched *)
+    Cont ].                                     (* now the directory watch is added *)
+
+Example window_unwatched_at_write :
+  mem (dir p_other) (st_watches (ex_run update_dir_watches (firstn 4 window_trace))) = false.
+Proof. vm_compute. reflexivity. Qed.
+
+Example window_stale_without_token :
+  let st := ex_run update_dir_watches window_trace in
+  view st = Some (1, 1) /\ st_recheck st = true /\ mem (dir p_other) (st_watches st) = true /\
+  e_notify ex_decode ex_hmac update_dir_watches p_cfg window_trace (fst ex_init) (snd ex_init) = false.
+Proof. vm_compute. repeat split; reflexivity. Qed.
+
+Example window_converges_with_token :
+  let t := window_trace ++ [In IRecheck] in
+  view (ex_run update_dir_watches t) = Some (6, 6) /\
+  trace_ok ex_decode ex_hmac update_dir_watches p_cfg t (fst ex_init) (snd ex_init) = true /\
+  e_notify ex_decode ex_hmac update_dir_watches p_cfg t (fst ex_init) (snd ex_init) = true.
+Proof. vm_compute. repeat split; reflexivity. Qed.
+
+(* the same at start-up: a change between dials.Config's initial Value() and
+   Watch() adding the watches is picked up by the initial token *)
+Example startup_window :
+  view (ex_run update_dir_watches [Fs (fs_of (Content 3) p_cfg)]) = Some (0, 0) /\
+  view (ex_run update_dir_watches [Fs (fs_of (Content 3) p_cfg); In IRecheck]) = Some (3, 3).
+Proof. vm_compute. repeat split; reflexivity. Qed.
+
+(* Known-finding class C17/2 on the model: the config path is switched to a
+   target in another directory and the target is deleted before the loop has
+   looked (dangling symlink).  The loop reads not-exist; its not-exist branch
+   does not follow the link, so the directory where the file re-appears is not
+   watched although the (belief-based) watch-set invariant holds: the
+   environment cannot deliver an event for the re-creation, E-notify fails for
+   this history, and the view stays stale.  An explicit reload repairs it. *)
+Definition dangling_trace : list item :=
+  [ In IRecheck;
+    Fs (fs_of (Content 1) p_other); KernelDrop p_cfg;   (* switched, event for c/f queued *)
+    Fs (mkFs NotExist None false false);                 (* target deleted: dangling link *)
+    In (IEvent p_cfg);                                   (* the loop looks: not exist *)
+    Fs (fs_of (Content 2) p_other) ].                    (* target re-created in o/: nobody watches o/ *)
+
+Example dangling_target_refuted :
+  let st := ex_run update_dir_watches dangling_trace in
+  view st = Some (0, 0) /\ winv p_cfg st = true /\ st_recheck st = false /\
+  mem (dir p_other) (st_watches st) = false /\
+  trace_ok ex_decode ex_hmac update_dir_watches p_cfg dangling_trace (fst ex_init) (snd ex_init) = true /\
+  e_notify ex_decode ex_hmac update_dir_watches p_cfg dangling_trace (fst ex_init) (snd ex_init) = false /\
+  view (ex_run update_dir_watches (dangling_trace ++ [In IReload])) = Some (2, 2).
 Proof. vm_compute. repeat split; reflexivity. Qed.
 
 (* cancel: the loop returns, all watches are released, later inputs are ignored *)
